@@ -330,7 +330,7 @@ def real_outcome(R, fn, kind):
         return {'error': 'AssertionError'}
     except core.DatabaseSessionIsOver as e:
         msg = str(e); act = msg[len('Cannot '):].split(' ' + type(R.objs[0]).__name__ + '[')[0] if msg.startswith('Cannot ') else msg
-        for a in ('load attribute', 'read value of', 'assign new value to', 'load collection', 'change collection', 'load object', 'delete object', 'change object'):
+        for a in ('load attribute', 'read value of', 'assign new value to', 'load collection', 'change collection', 'load object', 'delete object', 'change object', 'flush object'):
             if msg.startswith('Cannot ' + a + ' '): act = a
         return {'error': 'DatabaseSessionIsOver', 'action': act}
     except core.TransactionError as e:
@@ -430,7 +430,7 @@ def oracle(ctx, R, E, case, op, kind, o_i, pre, post, extra_pre, extra_post, out
 def op_brief(op):
     b = {'k': op['k']}
     if 'attr' in op: b['attr'] = op['attr']['id']
-    for f in ('same', 'item', 'via', 'wc', 'dbItem'):
+    for f in ('same', 'item', 'via', 'wc'):
         if f in op: b[f] = op[f]
     return b
 
@@ -488,16 +488,6 @@ def explore(ctx, E, scripts, stricts, ambients, target_limit=None):
                             post = canon_world(R.snapshot()); xpost = R.extra()
                             dump_post = E.dump()
                             op = dict(op)
-                            if op['k'] == 'collIsEmpty':
-                                # the row the SELECT ... LIMIT 1 returned (environment input of the model): the element that appeared
-                                aid_ = op['attr']['id']
-                                def items_of(w):
-                                    vals = w['objs'][o_i]['vals']
-                                    d = {p[0]: p[1] for p in vals} if vals is not None else {}
-                                    sd = d.get(aid_)
-                                    return set(sd['items']) if isinstance(sd, dict) else set()
-                                new = sorted(items_of(post) - items_of(pre))
-                                op['dbItem'] = new[0] if new else None
                             nsel = len([e for e in events if e['call'] == 'execute' and e['kind'] == 'select'])
                             full_case = dict(case, obj=o_i, ent=type(o).__name__, status=pre['objs'][o_i]['status'], op=op_brief(op), ambient=ambient)
                             ctx.case([script[0], ending, strict, ambient, type(o).__name__, pre['objs'][o_i]['status'], op_brief(op),
